@@ -22,6 +22,11 @@
 //! quiescence barrier, so the task sees them together with the next input ("while notifications
 //! are still queued").
 //!
+//! "link_lost" (how = "write": an own write is made after out_fail and fails; how = "read": the input
+//! channel is closed): the hosted downlink is then handled as AgentModel's task handles it - reconnect
+//! (`can_restart`, `flush`, `connect` with fresh channels; no `next_event` on that path) or drop; a client
+//! task cannot re-attach itself, its runtime (the harness) runs a fresh task on fresh channels.
+//!
 //! Abstract symbols (keys 1..3, values 1..3) are concretised from `cfg.pool` and mapped back.
 use bytes::BytesMut;
 use futures::SinkExt;
@@ -38,12 +43,13 @@ use swimos_agent::agent_model::downlink::{
     OpenEventDownlinkAction, OpenMapDownlinkAction, OpenValueDownlinkAction,
 };
 use swimos_agent::config::{MapDownlinkConfig, SimpleDownlinkConfig};
+use swimos_agent::agent_lifecycle::HandlerContext;
 use swimos_agent::downlink_lifecycle::{
-    OnConsumeEvent, OnDownlinkClear, OnDownlinkEvent, OnDownlinkRemove, OnDownlinkSet,
-    OnDownlinkUpdate, OnFailed, OnLinked, OnSynced, OnUnlinked,
+    MapDownlinkLifecycle, StatelessMapDownlinkLifecycle, StatelessMapLifecycle,
+    OnConsumeEvent, OnDownlinkEvent, OnDownlinkSet, OnFailed, OnLinked, OnSynced, OnUnlinked,
 };
 use swimos_agent::event_handler::{
-    ActionContext, DownlinkSpawnOnDone, HandlerAction, HandlerActionExt, HandlerFuture,
+    ActionContext, DownlinkSpawnOnDone, EventHandler, HandlerAction, HandlerActionExt, HandlerFuture,
     LaneSpawnOnDone, LaneSpawner, LinkSpawner, LocalBoxEventHandler, SideEffect, Spawner,
     StepResult,
 };
@@ -209,16 +215,28 @@ fn is_env(a: &Value) -> bool {
     matches!(a["k"].as_str(), Some("drop_handles") | Some("out_fail"))
 }
 
-async fn run_client(kind: &str, ewns: bool, tou: bool, env_settle: bool, pool: Arc<Pool>, acts: &[Value]) -> Value {
-    let rec = Rec::new(pool.clone());
-    let config = DownlinkConfig {
-        events_when_not_synced: ewns,
-        terminate_on_unlinked: tou,
-        buffer_size: NonZeroUsize::new(1024).unwrap(),
-    };
-    let (mut writer, in_rx, out_tx, out_rx) = channels();
-    let mut out_rx = Some(out_rx);
-    let (task, mut writes) = match kind {
+/// The own write a `link_lost` input with how = "write" attempts.
+fn lost_write(kind: &str, a: &Value) -> Value {
+    if kind == "map" {
+        json!({"k": "w_update", "key": a["key"], "val": a["val"]})
+    } else {
+        json!({"k": "w_set", "val": a["val"]})
+    }
+}
+
+type ClientTask = tokio::task::JoinHandle<Result<(), swimos_api::error::DownlinkTaskError>>;
+
+/// One run of a client downlink task, attached to its own channels.
+struct ClientInst {
+    task: ClientTask,
+    writes: ClientWrites,
+    writer: Option<NotifWriter>,
+    out_rx: Option<ByteReader>,
+}
+
+fn spawn_client(kind: &str, config: DownlinkConfig, rec: &Rec) -> ClientInst {
+    let (writer, in_rx, out_tx, out_rx) = channels();
+    let (task, writes) = match kind {
         "map" => {
             let lc = BasicMapDownlinkLifecycle::<i32, String>::default()
                 .with(rec.clone())
@@ -273,43 +291,29 @@ async fn run_client(kind: &str, ewns: bool, tou: bool, env_settle: bool, pool: A
             (tokio::spawn(fut), ClientWrites::None)
         }
     };
-    settle().await;
-    let mut obs = Vec::with_capacity(acts.len());
-    for a in acts {
-        if let Some(n) = notification(kind, a, &pool) {
-            // a terminated task has dropped its reader: the frame is then simply undeliverable
-            let _ = writer.send(n).await;
-        } else if is_env(a) {
-            if a["k"] == "drop_handles" {
-                writes = ClientWrites::None;
-            } else {
-                out_rx = None;
-            }
-            if !env_settle {
-                obs.push(json!({"cbs": rec.take(), "done": task.is_finished()}));
-                continue;
-            }
-        } else {
-            match (&writes, a["k"].as_str().unwrap()) {
-                (ClientWrites::Map(tx), _) => {
-                    if let Some(op) = map_operation(a, &pool) {
-                        let _ = tx.send(op).await;
-                    }
-                }
-                (ClientWrites::Value(tx), "w_set") => {
-                    let _ = tx.send(ValueDownlinkSet { to: pool.val(&a["val"]) }).await;
-                }
-                _ => {}
+    ClientInst { task, writes, writer: Some(writer), out_rx: Some(out_rx) }
+}
+
+async fn client_write(writes: &ClientWrites, a: &Value, pool: &Pool) {
+    match (writes, a["k"].as_str().unwrap()) {
+        (ClientWrites::Map(tx), _) => {
+            if let Some(op) = map_operation(a, pool) {
+                let _ = tx.send(op).await;
             }
         }
-        settle().await;
-        obs.push(json!({"cbs": rec.take(), "done": task.is_finished()}));
+        (ClientWrites::Value(tx), "w_set") => {
+            let _ = tx.send(ValueDownlinkSet { to: pool.val(&a["val"]) }).await;
+        }
+        _ => {}
     }
-    drop(out_rx);
-    let result = if task.is_finished() {
+}
+
+/// Ok(description of how the task ended) or Err(panic message).
+async fn finish_client(task: ClientTask) -> Result<String, String> {
+    if task.is_finished() {
         match task.await {
-            Ok(Ok(())) => "ok".to_string(),
-            Ok(Err(e)) => format!("err: {}", e),
+            Ok(Ok(())) => Ok("ok".to_string()),
+            Ok(Err(e)) => Ok(format!("err: {}", e)),
             Err(e) if e.is_panic() => {
                 let p = e.into_panic();
                 let msg = p
@@ -317,16 +321,70 @@ async fn run_client(kind: &str, ewns: bool, tou: bool, env_settle: bool, pool: A
                     .cloned()
                     .or_else(|| p.downcast_ref::<&str>().map(|s| s.to_string()))
                     .unwrap_or_else(|| "panic".to_string());
-                return json!({"panic": format!("downlink task panicked: {}", msg), "obs": obs});
+                Err(format!("downlink task panicked: {}", msg))
             }
-            Err(e) => format!("join: {}", e),
+            Err(e) => Ok(format!("join: {}", e)),
         }
     } else {
         task.abort();
         let _ = task.await;
-        "running".to_string()
-    };
-    json!({"obs": obs, "result": result})
+        Ok("running".to_string())
+    }
+}
+
+async fn run_client(kind: &str, ewns: bool, tou: bool, env_settle: bool, pool: Arc<Pool>, acts: &[Value]) -> Value {
+    let rec = Rec::new(pool.clone());
+    let config = DownlinkConfig { events_when_not_synced: ewns, terminate_on_unlinked: tou, ..Default::default() };
+    let mut inst = spawn_client(kind, config, &rec);
+    let mut handles_alive = true;
+    settle().await;
+    let mut obs = Vec::with_capacity(acts.len());
+    for a in acts {
+        if let Some(n) = notification(kind, a, &pool) {
+            // a terminated task has dropped its reader: the frame is then simply undeliverable
+            if let Some(w) = inst.writer.as_mut() {
+                let _ = w.send(n).await;
+            }
+        } else if is_env(a) {
+            if a["k"] == "drop_handles" {
+                inst.writes = ClientWrites::None;
+                handles_alive = false;
+            } else {
+                inst.out_rx = None;
+            }
+            if !env_settle {
+                obs.push(json!({"cbs": rec.take(), "done": inst.task.is_finished()}));
+                continue;
+            }
+        } else if a["k"] == "link_lost" {
+            // The link goes away underneath the downlink: either an own write fails ("write": the
+            // output reader is already gone) or the input channel ends ("read").  A stand-alone
+            // downlink task cannot re-attach itself: its runtime runs a new task on fresh channels
+            // (when the model says the link is re-established: not terminate_on_unlinked, handles alive).
+            if a["how"] == "write" {
+                client_write(&inst.writes, &lost_write(kind, a), &pool).await;
+                settle().await;
+            }
+            inst.writer = None;
+            inst.out_rx = None;
+            settle().await;
+            if !tou && handles_alive {
+                let old = std::mem::replace(&mut inst, spawn_client(kind, config, &rec));
+                if let Err(p) = finish_client(old.task).await {
+                    return json!({"panic": p, "obs": obs});
+                }
+            }
+        } else {
+            client_write(&inst.writes, a, &pool).await;
+        }
+        settle().await;
+        obs.push(json!({"cbs": rec.take(), "done": inst.task.is_finished()}));
+    }
+    inst.out_rx = None;
+    match finish_client(inst.task).await {
+        Ok(result) => json!({"obs": obs, "result": result}),
+        Err(p) => json!({"panic": p, "obs": obs}),
+    }
 }
 
 // ----------------------------------------------------------------------------------- hosted
@@ -425,39 +483,6 @@ impl OnFailed<FakeAgent> for HostedLc {
         self.later(cb("failed", 0, 0, 0, json!([])))
     }
 }
-impl OnSynced<HashMap<i32, String>, FakeAgent> for HostedLc {
-    type OnSyncedHandler<'a> = Hnd<'a> where Self: 'a;
-    fn on_synced<'a>(&'a self, value: &HashMap<i32, String>) -> Self::OnSyncedHandler<'a> {
-        self.later(cb("synced", 0, 0, 0, self.0.pool.amap(value.iter())))
-    }
-}
-impl OnDownlinkUpdate<i32, String, HashMap<i32, String>, FakeAgent> for HostedLc {
-    type OnUpdateHandler<'a> = Hnd<'a> where Self: 'a;
-    fn on_update<'a>(
-        &'a self,
-        key: i32,
-        map: &HashMap<i32, String>,
-        previous: Option<String>,
-        new_value: &String,
-    ) -> Self::OnUpdateHandler<'a> {
-        let p = &self.0.pool;
-        let o = previous.map(|o| p.aval(&o)).unwrap_or(0);
-        self.later(cb("update", p.akey(&key), o, p.aval(new_value), p.amap(map.iter())))
-    }
-}
-impl OnDownlinkRemove<i32, String, HashMap<i32, String>, FakeAgent> for HostedLc {
-    type OnRemoveHandler<'a> = Hnd<'a> where Self: 'a;
-    fn on_remove<'a>(&'a self, key: i32, map: &HashMap<i32, String>, removed: String) -> Self::OnRemoveHandler<'a> {
-        let p = &self.0.pool;
-        self.later(cb("remove", p.akey(&key), p.aval(&removed), 0, p.amap(map.iter())))
-    }
-}
-impl OnDownlinkClear<HashMap<i32, String>, FakeAgent> for HostedLc {
-    type OnClearHandler<'a> = Hnd<'a> where Self: 'a;
-    fn on_clear(&self, map: HashMap<i32, String>) -> Self::OnClearHandler<'_> {
-        self.later(cb("clear", 0, 0, 0, self.0.pool.amap(map.iter())))
-    }
-}
 impl OnSynced<String, FakeAgent> for HostedLc {
     type OnSyncedHandler<'a> = Hnd<'a> where Self: 'a;
     fn on_synced<'a>(&'a self, value: &String) -> Self::OnSyncedHandler<'a> {
@@ -491,15 +516,48 @@ impl OnConsumeEvent<String, FakeAgent> for HostedLc {
     }
 }
 
+type HMap = HashMap<i32, String>;
+type HCtx = HandlerContext<FakeAgent>;
+
+fn map_lifecycle(rec: &Rec) -> impl MapDownlinkLifecycle<i32, String, HMap, FakeAgent> + Send + 'static {
+    let (r1, r2, r3, r4, r5, r6, r7) = (rec.clone(), rec.clone(), rec.clone(), rec.clone(), rec.clone(), rec.clone(), rec.clone());
+    // arguments are captured when the downlink creates the handler, the callback "fires" when it runs
+    fn later(ctx: HCtx, r: &Rec, v: Value) -> impl EventHandler<FakeAgent> + 'static {
+        let r = r.clone();
+        ctx.effect(move || r.push(v))
+    }
+    StatelessMapDownlinkLifecycle::<FakeAgent, i32, String, HMap>::default()
+        .on_linked(move |ctx: HCtx| later(ctx, &r1, cb("linked", 0, 0, 0, json!([]))))
+        .on_unlinked(move |ctx: HCtx| later(ctx, &r2, cb("unlinked", 0, 0, 0, json!([]))))
+        .on_failed(move |ctx: HCtx| later(ctx, &r3, cb("failed", 0, 0, 0, json!([]))))
+        .on_synced(move |ctx: HCtx, map: &HMap| later(ctx, &r4, cb("synced", 0, 0, 0, r4.pool.amap(map.iter()))))
+        .on_update(move |ctx: HCtx, key: i32, map: &HMap, previous: Option<String>, new_value: &String| {
+            let p = &r5.pool;
+            let o = previous.map(|o| p.aval(&o)).unwrap_or(0);
+            later(ctx, &r5, cb("update", p.akey(&key), o, p.aval(new_value), p.amap(map.iter())))
+        })
+        .on_remove(move |ctx: HCtx, key: i32, map: &HMap, removed: String| {
+            let p = &r6.pool;
+            later(ctx, &r6, cb("remove", p.akey(&key), p.aval(&removed), 0, p.amap(map.iter())))
+        })
+        .on_clear(move |ctx: HCtx, map: HMap| later(ctx, &r7, cb("clear", 0, 0, 0, r7.pool.amap(map.iter()))))
+}
+
 enum HostedWrites {
     Map(swimos_agent::agent_model::downlink::MapDownlinkHandle<i32, String>),
     Value(swimos_agent::agent_model::downlink::ValueDownlinkHandle<String>),
     Event(#[allow(dead_code)] swimos_agent::agent_model::downlink::EventDownlinkHandle),
 }
 
+enum Drive {
+    Idle,
+    Stopped,
+    Failed,
+}
+
 /// One round of the agent task's downlink loop: wait for the channel, run the handlers it
-/// produces, until it is idle (returns false) or has stopped (returns true).
-async fn drive_hosted(chan: &mut BoxDownlinkChannel<FakeAgent>, cap: &Capture, agent: &FakeAgent) -> bool {
+/// produces, until it is idle, has stopped (await_ready gave None) or has failed (read / write).
+async fn drive_hosted(chan: &mut BoxDownlinkChannel<FakeAgent>, cap: &Capture, agent: &FakeAgent) -> Drive {
     let mut rounds = 0usize;
     loop {
         rounds += 1;
@@ -507,8 +565,8 @@ async fn drive_hosted(chan: &mut BoxDownlinkChannel<FakeAgent>, cap: &Capture, a
             panic!("hosted downlink did not become idle within 10000 rounds");
         }
         match tokio::time::timeout(Duration::from_nanos(1), chan.await_ready()).await {
-            Err(_) => return false,
-            Ok(None) => return true,
+            Err(_) => return Drive::Idle,
+            Ok(None) => return Drive::Stopped,
             Ok(Some(Ok(DownlinkChannelEvent::HandlerReady))) => {
                 if let Some(h) = chan.next_event(agent) {
                     run_action(h, cap, agent);
@@ -519,10 +577,66 @@ async fn drive_hosted(chan: &mut BoxDownlinkChannel<FakeAgent>, cap: &Capture, a
                 if let Some(h) = chan.next_event(agent) {
                     run_action(h, cap, agent);
                 }
-                return true;
+                return Drive::Failed;
             }
-            Ok(Some(Err(DownlinkChannelError::WriteFailed(_)))) => return true,
+            Ok(Some(Err(DownlinkChannelError::WriteFailed(_)))) => return Drive::Failed,
         }
+    }
+}
+
+/// The IO channels of the current attachment, as the harness (= the downlink runtime) holds them.
+struct HostedIo {
+    writer: Option<NotifWriter>,
+    out_rx: Option<ByteReader>,
+    kind: swimos_api::agent::DownlinkKind,
+}
+
+/// What AgentModel's task does with a hosted downlink until it is idle: drive it and, when it
+/// stops or fails (HostedDownlinkEvent::{Stopped, WriterFailed, HandlerReady{failed}}), call
+/// `reconnect`: if `can_restart()`, flush, obtain fresh channels from the runtime
+/// (`AgentContext::open_downlink`) and `connect()` them (ReconnectDownlink::connect) - no
+/// `next_event` runs on that path; otherwise the downlink is dropped.  Returns true once dropped.
+async fn agent_round(chan: &mut BoxDownlinkChannel<FakeAgent>, cap: &Capture, agent: &FakeAgent, io: &mut HostedIo) -> bool {
+    let mut reconnects = 0usize;
+    loop {
+        match drive_hosted(chan, cap, agent).await {
+            Drive::Idle => return false,
+            Drive::Stopped | Drive::Failed => {
+                if !chan.can_restart() {
+                    return true;
+                }
+                reconnects += 1;
+                if reconnects > 16 {
+                    panic!("hosted downlink keeps failing after reconnecting to fresh channels");
+                }
+                let _ = chan.flush().await;
+                // the agent re-opens the downlink by the channel's own address and kind
+                assert_eq!(chan.address(), &addr(), "hosted downlink reports a different address");
+                assert_eq!(chan.kind(), io.kind, "hosted downlink reports a different kind");
+                let (writer, in_rx, out_tx, out_rx) = channels();
+                chan.connect(agent, out_tx, in_rx);
+                io.writer = Some(writer);
+                io.out_rx = Some(out_rx);
+            }
+        }
+    }
+}
+
+fn hosted_write(writes: &mut HostedWrites, a: &Value, pool: &Pool) {
+    match (writes, a["k"].as_str().unwrap()) {
+        (HostedWrites::Map(h), "w_update") => {
+            let _ = h.update(pool.key(&a["key"]), pool.val(&a["val"]));
+        }
+        (HostedWrites::Map(h), "w_remove") => {
+            let _ = h.remove(pool.key(&a["key"]));
+        }
+        (HostedWrites::Map(h), "w_clear") => {
+            let _ = h.clear();
+        }
+        (HostedWrites::Value(h), "w_set") => {
+            let _ = h.set(pool.val(&a["val"]));
+        }
+        _ => {}
     }
 }
 
@@ -534,7 +648,10 @@ async fn run_hosted(kind: &str, ewns: bool, tou: bool, env_settle: bool, pool: A
     let mut writes = Some(match kind {
         "map" => {
             let config = MapDownlinkConfig { events_when_not_synced: ewns, terminate_on_unlinked: tou };
-            let open = OpenMapDownlinkAction::<i32, String, HashMap<i32, String>, _>::new(addr(), lc, config);
+            // the map lifecycle is built the way agent code builds it (downlink_lifecycle/map: the
+            // stateless builder that forwards key / map / previous / new value to the closures)
+            let open = OpenMapDownlinkAction::<i32, String, HashMap<i32, String>, _>::new(addr(), map_lifecycle(&rec), config);
+            drop(lc);
             HostedWrites::Map(run_action(open, &cap, &agent))
         }
         "value" => {
@@ -549,46 +666,51 @@ async fn run_hosted(kind: &str, ewns: bool, tou: bool, env_settle: bool, pool: A
         }
     });
     let factory = cap.factory.borrow_mut().take().expect("the open action registered no downlink");
-    let (mut writer, in_rx, out_tx, out_rx) = channels();
-    let mut out_rx = Some(out_rx);
+    let (writer, in_rx, out_tx, out_rx) = channels();
+    let dl_kind = match kind {
+        "map" => swimos_api::agent::DownlinkKind::Map,
+        "value" => swimos_api::agent::DownlinkKind::Value,
+        _ => swimos_api::agent::DownlinkKind::Event,
+    };
+    let mut io = HostedIo { writer: Some(writer), out_rx: Some(out_rx), kind: dl_kind };
     let mut chan = factory.create_box(&agent, out_tx, in_rx);
-    let mut done = drive_hosted(&mut chan, &cap, &agent).await;
+    let mut done = agent_round(&mut chan, &cap, &agent, &mut io).await;
     let mut obs = Vec::with_capacity(acts.len());
     for a in acts {
         if let Some(n) = notification(kind, a, &pool) {
-            let _ = writer.send(n).await;
+            if let Some(w) = io.writer.as_mut() {
+                let _ = w.send(n).await;
+            }
         } else if is_env(a) {
             if a["k"] == "drop_handles" {
                 writes = None;
             } else {
-                out_rx = None;
+                io.out_rx = None;
             }
             if !env_settle {
                 obs.push(json!({"cbs": rec.take(), "done": done}));
                 continue;
             }
-        } else if out_rx.is_none() {
-            // a write into the failed output would make the agent reconnect the downlink: not modelled
-        } else if let Some(writes) = writes.as_mut() {
-            match (writes, a["k"].as_str().unwrap()) {
-                (HostedWrites::Map(h), "w_update") => {
-                    let _ = h.update(pool.key(&a["key"]), pool.val(&a["val"]));
+        } else if a["k"] == "link_lost" {
+            // The link goes away underneath the downlink.  "write": the output reader is already gone
+            // (out_fail) and an own write is made: the write stream fails with WriteFailed.  "read":
+            // the runtime closes the downlink's input.  In both cases agent_round then does what the
+            // agent task does (reconnect to fresh channels if can_restart(), else drop the downlink).
+            if a["how"] == "write" {
+                if let Some(w) = writes.as_mut() {
+                    hosted_write(w, &lost_write(kind, a), &pool);
                 }
-                (HostedWrites::Map(h), "w_remove") => {
-                    let _ = h.remove(pool.key(&a["key"]));
-                }
-                (HostedWrites::Map(h), "w_clear") => {
-                    let _ = h.clear();
-                }
-                (HostedWrites::Value(h), "w_set") => {
-                    let _ = h.set(pool.val(&a["val"]));
-                }
-                _ => {}
+            } else {
+                io.writer = None;
             }
+        } else if io.out_rx.is_none() {
+            // an ordinary own write after out_fail is not issued on the hosted side (the input
+            // link_lost/"write" is the modelled form of "an own write fails")
+        } else if let Some(w) = writes.as_mut() {
+            hosted_write(w, a, &pool);
         }
         if !done {
-            // once the channel reports that it has stopped the agent task drops it (or reconnects it)
-            done = drive_hosted(&mut chan, &cap, &agent).await;
+            done = agent_round(&mut chan, &cap, &agent, &mut io).await;
         }
         obs.push(json!({"cbs": rec.take(), "done": done}));
     }
